@@ -8,10 +8,19 @@ STANDALONE = os.path.join(common.HARNESS, "standalone")
 
 def build_sweeps(work):
     e = common.env_clean()
-    e["BINDGEN_SRC"] = os.path.join(common.REPO, "bindgen")
+    src = os.path.join(common.REPO, "bindgen", "codegen", "bitfield_unit.rs")
+    # big-endian branches executed on this little-endian host: the same file with the
+    # `cfg!(target_endian = "big")` tests replaced by `true` (pure arithmetic, no host dependence)
+    text = open(src).read()
+    if 'cfg!(target_endian = "big")' not in text:
+        return None, "bitfield_unit.rs no longer tests cfg!(target_endian = \"big\")"
+    be_src = os.path.join(work, "bitfield_unit_be.rs")
+    open(be_src, "w").write(text.replace('cfg!(target_endian = "big")', "true"))
     bins = {}
     for mode, flags in (("dbg", ["-C", "opt-level=1", "-C", "overflow-checks=on", "-C", "debug-assertions=on"]),
-                        ("rel", ["-C", "opt-level=2", "-C", "overflow-checks=off", "-C", "debug-assertions=off"])):
+                        ("rel", ["-C", "opt-level=2", "-C", "overflow-checks=off", "-C", "debug-assertions=off"]),
+                        ("be", ["-C", "opt-level=2", "-C", "overflow-checks=off", "-C", "debug-assertions=off"])):
+        e["BINDGEN_BF_FILE"] = be_src if mode == "be" else src
         out = os.path.join(work, "bf_" + mode)
         rc, log = sh(["rustc", "--edition", "2021", "--cap-lints", "allow"] + flags +
                      [os.path.join(STANDALONE, "bf_sweep.rs"), "-o", out], env=e, timeout=900)
@@ -85,7 +94,7 @@ def _run(res, work):
         return
     tot = dict(ops=0, distinct=0, corr=0, known=0)
     samples = []
-    for mode in ("dbg", "rel"):
+    for mode in ("dbg", "rel", "be"):
         r = run_sweep(res, work, bins, mode)
         tot["ops"] += r["ops"]; tot["distinct"] += r["distinct"]; tot["corr"] += r["corr"]; tot["known"] += r["oracle_known"]
         samples += r["samples"]
@@ -98,6 +107,35 @@ def _run(res, work):
             # the correspondence is broken; search = the oracle comparison above found nothing
             res.violation("correspondence", "Model/BitfieldUnit.lean no longer matches bitfield_unit.rs (%s build); theorems C03_get_eq_spec/C03_set_eq_spec no longer speak about this code" % mode,
                           "model != implementation", r["first_corr"], found_input=False)
+    # struct level: generated structs through the real bindgen, allocation units vs the Lean
+    # allocation model, linked C + Rust executable as oracle
+    ok, log = common.cargo_build_harness(["c03s"])
+    rep = None
+    if not ok:
+        res.violation("machinery-error", "harness does not build against /repo", log[-3000:], found_input=False)
+    else:
+        swork = os.path.join(work, "structs"); os.makedirs(swork, exist_ok=True)
+        rc, out, rep = common.run_harness("c03s", res, swork)
+        if rep is None:
+            res.violation("machinery-error", "c03s produced no report", out[-2000:], found_input=False)
+        else:
+            listed = {f["id"]: f for f in common.known_findings("C03")}
+            for region, n in sorted(rep.get("known_region_hits", {}).items()):
+                if region in listed:
+                    if region != "bf_shift_gt_64":
+                        res.known("%s: %s (%d accessor operations in this run, each inside the region)" % (region, listed[region]["what_fails"], n))
+                    else:
+                        tot["known"] += n
+                else:
+                    rep["oracle_failures"].append({"class": "unlisted-region", "region": region})
+            for o in rep["oracle_failures"][:3]:
+                res.violation("oracle-failure", "generated bit-field accessor disagrees with the C compiler outside known regions", "linked C+Rust executable", o)
+            if not rep["oracle_failures"]:
+                for c in rep["correspondence_failures"][:3]:
+                    res.violation("correspondence", "Model/BitfieldAlloc.lean no longer matches bitfields_to_allocation_units; theorem C03_alloc_offsets_match_clang_partial no longer speaks about this code",
+                                  "model != implementation", c, found_input=False)
+            for m in rep.get("machinery", [])[:3]:
+                res.violation("machinery-error", str(m)[:500], "", found_input=False)
     if tot["known"]:
         res.known("bf_shift_gt_64: accessor with bit_offset mod 8 + width > 64 (e.g. 9-byte unit, 64-bit field at bit 4) differs from C; every such sweep case equals the model's prediction")
         res.coverage["known_region_cases"] = tot["known"]
@@ -106,15 +144,22 @@ def _run(res, work):
         "checker_cmd": "lake build BindgenModel.Props.C03 && lake env lean <#print axioms audit>" + (" && lake env leanchecker BindgenModel.Props.C03" if res.tier == "thorough" else ""),
         "theorems": lean["theorems"],
         "evaluations": tot["ops"], "distinct_nontrivial": tot["distinct"],
-        "rule": "every (storage size 1..16, bit offset, width 1..64) triple that fits (thorough: all; quick: all region-R1 and boundary triples + 1/8 sample) x {zero, ones, alternating, single bit, random} values x 4 dynamic entry points, plus 934 const-generic instantiations x 4 entry points, each in a build with and without overflow checks; distinct = distinct (size, offset, width, entry point) tuples; every case is non-trivial (width >= 1)",
+        "rule": "(b) struct level: generated structs/unions with runs of 1..12 bit-fields of every integer base type, _Bool and enum (full-width, :0, anonymous, interleaved plain members, packed / pragma pack / aligned) through the real bindgen; every allocation unit is compared with Model/BitfieldAlloc.lean; C setters/getters vs Rust accessors in one linked executable with memcmp of the whole object after every store; distinct = distinct (unit size, offset, width, signedness). (a) sweep: every (storage size 1..16, bit offset, width 1..64) triple that fits (thorough: all; quick: all region-R1 and boundary triples + 1/8 sample) x {zero, ones, alternating, single bit, random} values x 4 dynamic entry points, plus 934 const-generic instantiations x 4 entry points, each in a build with and without overflow checks; distinct = distinct (size, offset, width, entry point) tuples; every case is non-trivial (width >= 1)",
         "samples": samples,
         "traces_validated_against_impl": tot["ops"], "disagreements_checked": tot["corr"],
         "known_region_cases": tot["known"],
         "sweep_stats": {k: v for k, v in tot.items() if k.startswith("stats_")},
         "exhaustive": res.tier == "thorough",
     })
+    if rep:
+        res.coverage.update({
+            "struct_level": {k: rep[k] for k in ("evaluations", "structs", "bitfields", "distinct_nontrivial", "allocation_units_compared", "constructor_tests", "template_batches", "known_region_hits", "storage_bits_histogram")},
+            "evaluations": tot["ops"] + rep["evaluations"],
+            "distinct_nontrivial": tot["distinct"] + rep["distinct_nontrivial"],
+        })
+        res.coverage["samples"] = samples + rep["samples"][:2]
     res.assumptions += [
-        "host is little-endian with 64-bit usize; the big-endian branches and the 32-bit usize fast path are modelled and proved (wb = 32) but not executed",
+        "host is little-endian with 64-bit usize; the big-endian branches are executed through a copy of bitfield_unit.rs with cfg!(target_endian = \"big\") replaced by true; the 32-bit usize fast path is modelled and proved (wb = 32) but not executed",
         "raw_* entry points are exercised on [u8; N] storage only",
     ]
 
